@@ -18,6 +18,7 @@ import (
 	"fmt"
 	"go/token"
 	"io"
+	"sort"
 	"strings"
 
 	"github.com/awslabs/ar-go-tools/analysis/config"
@@ -769,16 +770,22 @@ func (v *Visitor) addNext(s *df.AnalyzerState,
 	}
 
 	nextNodeAccessPaths := []string{}
+	// The access paths are part of the key of the visitor node (see VisitorNode.Key): they must be a canonical
+	// representation of a *set* of paths, i.e. without duplicates and independent of the map iteration order.
+	// Otherwise the same node can be queued under unboundedly many keys and the traversal does not terminate.
+	addedPaths := map[string]bool{}
 	for inPath, outPaths := range edgeInfo.RelPath {
 		for outPath := range outPaths {
 			// Logic for matching paths
 			for _, ap := range cur.AccessPaths {
-				if strings.HasPrefix(inPath, ap) {
+				if strings.HasPrefix(inPath, ap) && !addedPaths[outPath] {
+					addedPaths[outPath] = true
 					nextNodeAccessPaths = append(nextNodeAccessPaths, outPath)
 				}
 			}
 		}
 	}
+	sort.Strings(nextNodeAccessPaths)
 	if len(edgeInfo.RelPath) == 0 || (len(edgeInfo.RelPath) == 1 && edgeInfo.RelPath[""][""]) {
 		nextNodeAccessPaths = cur.AccessPaths
 	}
